@@ -721,3 +721,70 @@ fn c19_st_pass(sink: &mut Sink, rng: &mut Rng, thorough: bool, dir: &std::path::
     sink.emit(&format!("st_sfold {} {} {}", fmt_ranges(&sm), ta, tp), &ans, !a.is_empty());
   }
 }
+
+/// C19: `moc from timestamppos` / `timerangepos` (microseconds, decimal degrees): the ST-MOC written must cover
+/// exactly the (time cell or degraded time range) x (space cell) products; the cell of a position is computed by
+/// cdshealpix (oracle for the hash only).
+pub fn c19_st_from(sink: &mut Sink, rng: &mut Rng, thorough: bool, dir: &std::path::Path) {
+  use crate::c19::moc as run_moc;
+  use moc::deser::fits::{from_fits_ivoa, MocIdxType, MocQtyType, STMocType};
+  for it in 0..(if thorough { 120 } else { 16 }) {
+    let td: u8 = *rng.pick(&[61u8, 61, 40, 20, 5]);
+    let sd: u8 = rng.below(6) as u8;
+    let tu = 1u64 << (61 - td as u32);
+    let su = 1u64 << (2 * (29 - sd as u32));
+    let k = 1 + rng.below(5) as usize;
+    let ranges = it % 2 == 1;
+    let base = if rng.chance(1, 3) { (1u64 << 62) - 40 * tu.min(1 << 50) } else { rng.below(1 << 40) };
+    let mut obs: Vec<(Range<u64>, Range<u64>)> = Vec::new();
+    let mut input = String::new();
+    for j in 0..k {
+      let lon = rng.below(3_600_000) as f64 / 10_000.0;
+      let lat = rng.below(1_799_000) as f64 / 10_000.0 - 89.95;
+      let cell = cdshealpix::nested::hash(sd, lon.to_radians(), lat.to_radians());
+      // timestamps around a common base: equal, adjacent and distant instants; ranges that overlap / touch
+      let t1 = (base + match rng.below(4) { 0 => 0, 1 => tu, 2 => 3 * tu + rng.below(tu.max(2)), _ => rng.below(20 * tu.min(1 << 40) + 1) }).min((1u64 << 62) - 2);
+      if ranges {
+        let t2 = (t1 + 1 + rng.below(3 * tu.min(1 << 40) + 2)).min((1u64 << 62) - 1);
+        input.push_str(&format!("{} {} {} {}\n", t1, t2, lon, lat));
+        // degraded to the time depth: start floored, end rounded up
+        obs.push(((t1 / tu) * tu..((t2 + tu - 1) / tu) * tu, cell * su..(cell + 1) * su));
+      } else {
+        input.push_str(&format!("{} {} {}\n", t1, lon, lat));
+        obs.push(((t1 / tu) * tu..(t1 / tu + 1) * tu, cell * su..(cell + 1) * su));
+      }
+      if j == 0 && rng.chance(1, 3) && !ranges { input.push_str(&format!("{} {} {}\n", t1, lon, lat)); }
+    }
+    let outp = dir.join("from_st.fits");
+    let _ = std::fs::remove_file(&outp);
+    let (tds, sds) = (td.to_string(), sd.to_string());
+    let sub = if ranges { "timerangepos" } else { "timestamppos" };
+    let o = run_moc(&["from", sub, "--time-type", "usec", &tds, &sds, "-", "fits", outp.to_str().unwrap()], Some(&input));
+    // grid: both ends of every observation and their neighbours
+    let mut gt: Vec<u64> = Vec::new();
+    let mut gs: Vec<u64> = Vec::new();
+    for (t, sp) in &obs {
+      gt.extend([t.start, t.end - 1, t.end, t.start.saturating_sub(1)]);
+      gs.extend([sp.start, sp.end - 1, sp.end, sp.start.saturating_sub(1)]);
+    }
+    gt.sort_unstable(); gt.dedup(); gs.sort_unstable(); gs.dedup();
+    let ans = if o.code == 0 {
+      match std::fs::read(&outp).map_err(|e| e.to_string()).and_then(|b| match from_fits_ivoa(std::io::Cursor::new(&b)) {
+        Ok(MocIdxType::U64(MocQtyType::TimeHpx(STMocType::V2(it)))) => { let (d1, d2) = (it.depth_max_1(), it.depth_max_2()); Ok((d1, d2, from_moc2(it.into_range_moc2()))) }
+        Ok(_) => Err("wrong-kind".to_string()),
+        Err(e) => Err(format!("unreadable: {}", e)),
+      }) {
+        Ok((d1, d2, out)) => {
+          if d1 != td || d2 != sd { sink.impl_failures.push(format!("cli-st-depths: moc from {} {} {} wrote depths ({}, {})", sub, td, sd, d1, d2)); }
+          let mut s = String::new();
+          for t in &gt { for p in &gs { s.push(if out.iter().any(|e| mem(&e.0, *t) && mem(&e.1, *p)) { '1' } else { '0' }); } }
+          s
+        }
+        Err(e) => e,
+      }
+    } else if o.code == 101 { cli_panic_site(&o.err) } else { format!("exit {} {}", o.code, o.err.lines().next().unwrap_or("")) };
+    sink.count(&format!("from:{}", sub));
+    let otxt = obs.iter().map(|(t, sp)| format!("{}-{}@{}-{}", t.start, t.end, sp.start, sp.end)).collect::<Vec<_>>().join(";");
+    sink.emit(&format!("st_obs {} {} {}", otxt, nats(&gt), nats(&gs)), &ans, true);
+  }
+}
